@@ -319,3 +319,188 @@ theorem feerate_bump_none_core (w inp dust prev : Nat) (s : FeerateStrategy) (es
       · cases h
 
 end Ldk.Pkg
+
+/-! ### compute_package_feerate / compute_package_output (C07; appended)
+
+    Lemmas about the TRANSLATED `computePackageFeerate` (target feerate of claims that take their fee
+    from external inputs: anchor commitment bump, anchor HTLC claims) and `computePackageOutput`
+    (self-funded malleable claims).  Each is proved by unfolding the generated definition and
+    deciding the resulting linear arithmetic, so a change of the Rust body that changes the
+    arithmetic breaks them, while a mere re-arrangement does not. -/
+namespace Ldk.Pkg
+open Ldk
+
+theorem pf_nat_max_eq (a b : Nat) : Nat.max a b = max a b := rfl
+theorem pf_nat_min_eq (a b : Nat) : Nat.min a b = min a b := rfl
+
+macro "pkg_feerate_cases" s:ident : tactic => `(tactic| (
+  have hu : U32_MAX = 4294967295 := rfl
+  have hf : FEERATE_FLOOR_SATS_PER_KW = 253 := rfl
+  unfold computePackageFeerate boundedSatPer1000Weight satAdd32
+  simp only [pf_nat_max_eq, pf_nat_min_eq, decide_eq_true_eq, ne_eq, decide_not, Bool.not_eq_true', decide_eq_false_iff_not, gt_iff_lt]
+  cases $s:ident <;> simp only [] <;> (repeat' split) <;> omega))
+
+theorem computePackageFeerate_ge (prev : Nat) (s : FeerateStrategy) (est : Nat) :
+    Nat.min prev U32_MAX ≤ computePackageFeerate prev s est := by
+  pkg_feerate_cases s
+
+/-- never below the (bounded) estimate's floor, never zero -/
+theorem computePackageFeerate_floor (prev : Nat) (s : FeerateStrategy) (est : Nat) (hp : prev = 0 ∨ FEERATE_FLOOR_SATS_PER_KW ≤ prev) :
+    FEERATE_FLOOR_SATS_PER_KW ≤ computePackageFeerate prev s est := by
+  pkg_feerate_cases s
+
+theorem computePackageFeerate_le (prev : Nat) (s : FeerateStrategy) (est : Nat) :
+    computePackageFeerate prev s est ≤ Nat.max (Nat.min prev U32_MAX) (5 * boundedSatPer1000Weight est) := by
+  pkg_feerate_cases s
+
+theorem computePackageFeerate_retry (prev est : Nat) (hp : prev ≠ 0) :
+    computePackageFeerate prev .retryPrevious est = Nat.min prev U32_MAX := by
+  unfold computePackageFeerate
+  simp [hp]
+
+theorem computePackageFeerate_highest (prev est : Nat) (hp : prev ≠ 0) :
+    computePackageFeerate prev .highestOfPreviousOrNew est = Nat.max (Nat.min prev U32_MAX) (boundedSatPer1000Weight est) := by
+  unfold computePackageFeerate
+  simp [hp]
+
+theorem computePackageFeerate_force (prev est : Nat) (hp : prev ≠ 0) (hu' : prev ≤ U32_MAX) :
+    prev < computePackageFeerate prev .forceBump est ∨
+    (computePackageFeerate prev .forceBump est = prev ∧ (5 * boundedSatPer1000Weight est ≤ prev ∨ prev = U32_MAX)) := by
+  have hu : U32_MAX = 4294967295 := rfl
+  have hf : FEERATE_FLOOR_SATS_PER_KW = 253 := rfl
+  unfold computePackageFeerate boundedSatPer1000Weight satAdd32
+  simp only [pf_nat_max_eq, pf_nat_min_eq, decide_eq_true_eq, ne_eq, decide_not, Bool.not_eq_true', decide_eq_false_iff_not, gt_iff_lt]
+  (repeat' split) <;> omega
+
+/-- a forced bump follows a higher estimate … -/
+theorem computePackageFeerate_force_est (prev est : Nat) (hp : prev ≠ 0) (he : Nat.min prev U32_MAX < boundedSatPer1000Weight est) :
+    computePackageFeerate prev .forceBump est = boundedSatPer1000Weight est := by
+  have hu : U32_MAX = 4294967295 := rfl
+  have hf : FEERATE_FLOOR_SATS_PER_KW = 253 := rfl
+  unfold computePackageFeerate boundedSatPer1000Weight satAdd32 at *
+  simp only [pf_nat_max_eq, pf_nat_min_eq, decide_eq_true_eq, ne_eq, decide_not, Bool.not_eq_true', decide_eq_false_iff_not, gt_iff_lt] at *
+  (repeat' split) <;> omega
+
+/-- … and otherwise adds 25 % (saturating) when that stays within 5x the estimate -/
+theorem computePackageFeerate_force_uncapped (prev est : Nat) (hp : prev ≠ 0) (hu' : prev ≤ U32_MAX)
+    (he : boundedSatPer1000Weight est ≤ prev) (hc : satAdd32 prev (prev / 4) ≤ 5 * boundedSatPer1000Weight est) :
+    computePackageFeerate prev .forceBump est = satAdd32 prev (prev / 4) := by
+  have hu : U32_MAX = 4294967295 := rfl
+  have hf : FEERATE_FLOOR_SATS_PER_KW = 253 := rfl
+  unfold computePackageFeerate boundedSatPer1000Weight satAdd32 at *
+  simp only [pf_nat_max_eq, pf_nat_min_eq, decide_eq_true_eq, ne_eq, decide_not, Bool.not_eq_true', decide_eq_false_iff_not, gt_iff_lt] at *
+  (repeat' split) <;> (repeat' split at hc) <;> omega
+
+theorem computePackageFeerate_in_range (prev : Nat) (s : FeerateStrategy) (est : Nat)
+    (he : 5 * boundedSatPer1000Weight est ≤ U32_MAX) : computePackageFeerate prev s est ≤ U32_MAX := by
+  have h := computePackageFeerate_le prev s est
+  have h2 : Nat.min prev U32_MAX ≤ U32_MAX := Nat.min_le_right _ _
+  rw [pf_nat_max_eq] at h
+  omega
+
+/-- first issue of a claim (`feerate_previous == 0`): the floor-bounded estimate, whatever the strategy -/
+theorem computePackageFeerate_first (s : FeerateStrategy) (est : Nat) :
+    computePackageFeerate 0 s est = boundedSatPer1000Weight est := by
+  unfold computePackageFeerate
+  simp
+
+/-- `compute_package_output`: what it answers is `feerate_bump` (claim issued before) resp.
+    `compute_fee_from_spent_amounts` (first issue) with the output clamped to the dust limit -/
+theorem computePackageOutput_some {amt w dust prev : Nat} {s : FeerateStrategy} {est out rate : Nat}
+    (h : computePackageOutput amt w dust prev s est = some (out, rate)) :
+    ∃ fee, out = Nat.max (amt - fee) dust ∧
+      ((prev ≠ 0 ∧ feerateBump w amt dust prev s est = some (fee, rate)) ∨
+       (prev = 0 ∧ computeFeeFromSpentAmounts amt w est = some (fee, rate))) := by
+  unfold computePackageOutput at h
+  simp only [ne_eq, decide_not, Bool.not_eq_true', decide_eq_false_iff_not] at h
+  split at h
+  · rename_i hp
+    split at h
+    · rename_i fee r hb
+      simp only [Option.some.injEq, Prod.mk.injEq] at h
+      exact ⟨fee, h.1.symm, Or.inl ⟨hp, by rw [hb, h.2]⟩⟩
+    · cases h
+  · rename_i hp
+    split at h
+    · rename_i fee r hb
+      simp only [Option.some.injEq, Prod.mk.injEq] at h
+      exact ⟨fee, h.1.symm, Or.inr ⟨Decidable.not_not.mp hp, by rw [hb, h.2]⟩⟩
+    · cases h
+
+/-! #### re-broadcast after an RBF bump: the fee is recomputed from the stored, rounded-down feerate (C07, KF-C07-1) -/
+
+/-- `F ↦ ⌊F·1000/w⌋ ↦ ⌊⌊F·1000/w⌋·w/1000⌋` loses at most `w/1000 + 1` -/
+theorem fee_rounding_slack (F w : Nat) (hw : 0 < w) :
+    (F * 1000 / w) * w / 1000 ≤ F ∧ F ≤ (F * 1000 / w) * w / 1000 + w / 1000 + 1 := by
+  have h1 : F * 1000 / w * w ≤ F * 1000 := Nat.div_mul_le_self _ _
+  have h2 : F * 1000 < w * (F * 1000 / w + 1) := Nat.lt_mul_div_succ _ hw
+  have h3 : F * 1000 / w * w / 1000 * 1000 ≤ F * 1000 / w * w := Nat.div_mul_le_self _ _
+  have h4 : F * 1000 / w * w < 1000 * (F * 1000 / w * w / 1000 + 1) := Nat.lt_mul_div_succ _ (by decide)
+  have h5 : w < 1000 * (w / 1000 + 1) := Nat.lt_mul_div_succ _ (by decide)
+  have h6 : w * (F * 1000 / w + 1) = F * 1000 / w * w + w := by rw [Nat.mul_add, Nat.mul_one, Nat.mul_comm]
+  rw [h6] at h2
+  generalize F * 1000 / w * w = X at *
+  omega
+
+/-- what `feerate_bump` answers is either the previous feerate with the fee RECOMPUTED from it, or a fee with the feerate
+    recomputed (rounded down) from the fee -/
+theorem feerateBump_shape {w inp dust prev : Nat} {s : FeerateStrategy} {est F r : Nat}
+    (h : feerateBump w inp dust prev s est = some (F, r)) :
+    (r = prev ∧ F = prev * w / 1000) ∨ r = F * 1000 / w := by
+  rw [feerateBump_eq] at h
+  split at h
+  · cases h
+  · rename_i nf nr hc
+    unfold bumpTail at h
+    split at h
+    · rename_i heq
+      simp only [Option.some.injEq] at h
+      cases s <;> simp only [selectFee] at h heq
+      · left
+        cases h
+        exact ⟨rfl, rfl⟩
+      · split at h
+        · right
+          rename_i hgt
+          simp only [hgt, if_true] at heq
+          omega
+        · left; cases h; exact ⟨rfl, rfl⟩
+      · split at h
+        · right
+          rename_i hgt
+          simp only [hgt, if_true] at heq
+          omega
+        · rename_i hgt
+          simp only [hgt, if_false] at heq
+          left
+          cases h
+          have h0 : prev / 4 = 0 := by omega
+          rw [h0, Nat.add_zero]
+          exact ⟨rfl, rfl⟩
+    · simp only [] at h
+      split at h
+      · cases h
+      · simp only [Option.some.injEq, Prod.mk.injEq] at h
+        right
+        rw [← h.2, ← h.1]
+
+/-- a plain re-broadcast (`RetryPrevious`) of a claim last issued by `feerate_bump` with `(F, r)` keeps the
+    feerate `r` and pays `F' ≤ F` with `F ≤ F' + weight/1000 + 1`: the fee is recomputed from the stored,
+    rounded-down feerate -/
+theorem retry_after_bump {w inp dust prev : Nat} {s : FeerateStrategy} {est est' F r F' r' : Nat} (hw : 0 < w)
+    (h : feerateBump w inp dust prev s est = some (F, r))
+    (h' : feerateBump w inp dust r .retryPrevious est' = some (F', r')) :
+    r' = r ∧ F' = r * w / 1000 ∧ F' ≤ F ∧ F ≤ F' + w / 1000 + 1 := by
+  have hs : r' = r ∧ F' = r * w / 1000 := by
+    rw [feerateBump_eq] at h'
+    split at h'
+    · cases h'
+    · simp only [selectFee, bumpTail, if_true, Option.some.injEq, Prod.mk.injEq] at h'
+      exact ⟨h'.2.symm, h'.1.symm⟩
+  refine ⟨hs.1, hs.2, ?_⟩
+  rw [hs.2]
+  rcases feerateBump_shape h with ⟨hr, hF⟩ | hr
+  · subst hr; subst hF; omega
+  · rw [hr]; exact fee_rounding_slack F w hw
+
+end Ldk.Pkg
